@@ -2,6 +2,7 @@
 #include "fmt.h"
 
 static fres_t FX;
+static int CVALS_is_nul(unsigned sel) { return sel % 6 == 5; }
 
 static int gen_c09(cs_t *cs, void *k, const runcfg_t *cfg) {
     fcase_t *c = k;
@@ -99,3 +100,204 @@ const module_t mod_C09 = {"C09", sizeof(fcase_t), 1, {400000, 4000000}, f_init, 
                           "formats from the grammar literal* (%% | % flags* width? (.prec)? length? conv)* with an n conversion (every length modifier, flags, width, 0..3 escaped percents in front, "
                           "after other directives) or an escaped look-alike, over all 16 printf_s and 12 scanf_s entry points called through libffi; "
                           "non-trivial = the format holds a real n directive or an escaped look-alike; distinct by decoded format and entry point"};
+
+/* ======================= C11: formatted output matches C printf, or fails ======================= */
+#include <math.h>
+#include <ctype.h>
+static fres_t FX2;
+
+static int is_float_conv(int cv) { return cv && strchr("fFeEgGa", cv) != NULL; }
+
+static int gen_c11(cs_t *cs, void *k, const runcfg_t *cfg) {
+    fcase_t *c = k;
+    int i;
+    static const int rels[] = {-100, -3, -2, -1, 0, 1, 2, 5, 0, 1};
+    c->ent = (int)cs_range(cs, 0, 7);
+    if (cfg->row_filter) { for (i = 0; i < 8; i++) if (!strcmp(g_fent[i].name, cfg->row_filter)) c->ent = i; }
+    if (cfg->phase == 0) {
+        /* one directive: every integer conversion x flag subset x width/precision class x length x boundary values */
+        fdir_t *d = &c->d[0];
+        static const char convs[] = {'d', 'u', 'x', 'o', 'c', 's', 'f', 'e', 'g'};
+        static const int16_t ws[] = {-1, 1, 8, 33};
+        static const int16_t ps[] = {-1, 0, 3, 33};
+        memset(d, 0, sizeof *d);
+        c->nd = 1;
+        d->conv = (uint8_t)convs[cs_range(cs, 0, 8)];
+        d->flags = (uint8_t)cs_range(cs, 0, 31);
+        d->width = ws[cs_range(cs, 0, 3)];
+        d->prec = ps[cs_range(cs, 0, 3)];
+        if (strchr("duxo", d->conv)) { static const uint8_t ls[] = {LEN_NONE, LEN_HH, LEN_L, LEN_LL}; d->len = ls[cs_range(cs, 0, 3)]; d->vsel = (uint8_t)cs_range(cs, 0, 11); }
+        else if (is_float_conv(d->conv)) { d->len = (uint8_t)(cs_range(cs, 0, 1) ? LEN_BIGL : LEN_NONE); d->vsel = (uint8_t)cs_range(cs, 0, 26); }
+        else { d->vsel = (uint8_t)cs_range(cs, 0, 5); d->flags &= 1; if (d->conv == 'c') d->prec = -1; }
+        d->lit = (uint8_t)cs_range(cs, 0, 1);
+        c->tail_lit = 0;
+        c->dmax_rel = (int16_t)rels[cs_range(cs, 2, 6)];
+        c->dbos = (uint8_t)cs_noise(cs, 0, 1);
+        c->locale = 0; c->dirty = 1;
+        return 1;
+    }
+    c->nd = (int)cs_range(cs, 0, 4);
+    c->locale = (uint8_t)cs_range(cs, 0, 1);
+    for (i = 0; i < c->nd; i++) fmt_gen_dir(cs, &c->d[i], FK_PRINTF, 0, 1, c->locale);
+    c->tail_lit = (uint8_t)cs_range(cs, 0, 7);
+    c->dmax_rel = (int16_t)rels[cs_range(cs, 0, 9)];
+    c->dbos = (uint8_t)cs_range(cs, 0, 1);
+    c->dirty = 1;
+    return 1;
+}
+
+/* feature class of the format for finding keys */
+static const char *c11_class(const fcase_t *c) {
+    int i;
+    static char buf[64];
+    const char *cls = "literal-only";
+    for (i = 0; i < c->nd; i++) {
+        const fdir_t *d = &c->d[i];
+        if (d->conv == '%' ) continue;
+        if (is_float_conv(d->conv)) { snprintf(buf, sizeof buf, "float-%c%s", d->conv, d->len == LEN_BIGL ? "-L" : ""); return buf; }
+    }
+    for (i = 0; i < c->nd; i++) {
+        const fdir_t *d = &c->d[i];
+        int w = d->width == -2 ? (d->wstar < 0 ? -d->wstar : d->wstar) : d->width, p = d->prec == -2 ? d->pstar : d->prec;
+        if (d->conv == '%') continue;
+        if (d->conv == 'C' || d->conv == 'S') { snprintf(buf, sizeof buf, "wide-%s", d->conv == 'C' ? "lc" : "ls"); return buf; }
+        if (d->conv == 'c' && CVALS_is_nul(d->vsel)) return "char-NUL";
+        if (strchr("diuxXo", d->conv)) {
+            if (p > 31 || w > 31) return "int-wide-field>31";
+            if (d->flags & 8) cls = "int-alt-form"; else if (!strcmp(cls, "literal-only")) cls = "int";
+        } else if (!strcmp(cls, "literal-only")) cls = d->conv == 's' ? "string" : "char";
+    }
+    return cls;
+}
+
+/* collapse digit runs so that layouts can be compared */
+static void shape_of(const char *s, char *o, size_t n) {
+    size_t k = 0;
+    for (; *s && k + 1 < n; s++) {
+        if (isdigit((unsigned char)*s)) { if (k == 0 || o[k - 1] != 'd') o[k++] = 'd'; }
+        else o[k++] = *s;
+    }
+    o[k] = 0;
+}
+
+static int float_text_ok(const fcase_t *c, const char *got, const char *ref) {
+    /* single floating directive formats only: compare layout, then value within one unit of the last printed digit */
+    char sa[256], sb[256];
+    const char *p, *q;
+    double va, vb, unit;
+    int fa = 0, fb = 0, ea = 0;
+    (void)c;
+    if (!strcmp(got, ref)) return 1;
+    shape_of(got, sa, sizeof sa); shape_of(ref, sb, sizeof sb);
+    if (strcmp(sa, sb)) return 0;
+    /* numeric field: first char that can start a number */
+    p = got; while (*p && !(isdigit((unsigned char)*p) || ((*p == '-' || *p == '+' || *p == '.') && isdigit((unsigned char)p[1])))) p++;
+    q = ref; while (*q && !(isdigit((unsigned char)*q) || ((*q == '-' || *q == '+' || *q == '.') && isdigit((unsigned char)q[1])))) q++;
+    if (!*p || !*q) return 0;
+    va = strtod(p, NULL); vb = strtod(q, NULL);
+    { const char *dot = strchr(p, '.'); if (dot) { dot++; while (isdigit((unsigned char)*dot)) { fa++; dot++; } } }
+    { const char *dot = strchr(q, '.'); if (dot) { dot++; while (isdigit((unsigned char)*dot)) { fb++; dot++; } } }
+    if (fa != fb) return 0;
+    { const char *e = strpbrk(p, "eE"); if (e) ea = atoi(e + 1); }
+    unit = pow(10.0, (double)(ea - fa));
+    return fabs(va - vb) <= unit * 1.0000001;
+}
+
+static void exec_c11(const void *k, res_t *r, const runcfg_t *cfg) {
+    const fcase_t *c = k;
+    const fent_t *e = &g_fent[c->ent];
+    int nfloat = 0, ndir = 0, i, fits;
+    size_t outlen;
+    const char *cls;
+    (void)cfg;
+    fmt_run(c, &FX, 1, G_NA);
+    r->hash = fmt_hash(c);
+    for (i = 0; i < c->nd; i++) { if (is_float_conv(c->d[i].conv)) nfloat++; if (c->d[i].conv != '%') ndir++; }
+    res_label(r, e->sink == SK_BUF ? "sink:buffer" : (e->sink == SK_STREAM ? "sink:stream" : "sink:stdout"));
+    if (FX.faulted) {
+        r->fragile = 1;
+        RES_VIOL(r, "C11:%s:fault:%s", e->name, c11_class(c));
+        RES_DETAIL(r, "signal %d (%s) while formatting \"%s\"", FX.sig, FX.fault_write ? "store" : "load", FX.fmt);
+        return;
+    }
+    if (FX.ref_len < 0 || FX.ref_len >= (int)sizeof FX.ref - 1) { res_label(r, "libc-declines"); return; }
+    cls = c11_class(c);
+    fits = e->sink != SK_BUF || (size_t)FX.ref_len < FX.dmax;
+    r->nontrivial = ndir > 0 && fits;
+    res_label(r, nfloat ? "has-float" : "exact-class");
+    res_label(r, fits ? "fits" : "does-not-fit");
+    /* history independence: an unrelated long-double/hex-float formatting call in between must not change the bytes */
+    {
+        fcase_t other;
+        memset(&other, 0, sizeof other);
+        other.ent = 0; other.nd = 2;
+        other.d[0].conv = 'f'; other.d[0].len = LEN_BIGL; other.d[0].width = -1; other.d[0].prec = 7; other.d[0].vsel = 13;
+        other.d[1].conv = 'e'; other.d[1].width = 12; other.d[1].prec = -1; other.d[1].vsel = 11; other.d[1].lit = 2;
+        other.dmax_rel = 3;
+        FX2 = FX;
+        fmt_run(&other, &FX, 1, G_NA);
+        fmt_run(c, &FX, 1, G_NA);
+        if (!FX.faulted && (FX.ret != FX2.ret || FX.out_len != FX2.out_len || memcmp(FX.out, FX2.out, FX.out_len) != 0)) {
+            RES_VIOL(r, "C11:%s:history-dependent:%s", e->name, cls);
+            RES_DETAIL(r, "\"%s\": first call returned %d, the same call after an unrelated one returned %d / different bytes", FX.fmt, FX2.ret, FX.ret);
+            return;
+        }
+    }
+    if (FX.ret < 0) {
+        res_label(r, "ret:negative");
+        if (fits && !(e->sink == SK_BUF && FX.dmax == 0)) {
+            /* invalid arguments are allowed to fail: %lc/%ls with characters not representable in the locale */
+            int enc = 0;
+            for (i = 0; i < c->nd; i++) if ((c->d[i].conv == 'C' || c->d[i].conv == 'S') ) enc = 1;
+            if (enc) { res_label(r, "encoding-may-fail"); return; }
+            RES_VIOL(r, "C11:%s:fails-although-it-fits:%s", e->name, cls);
+            RES_DETAIL(r, "\"%s\": libc renders %d characters (\"%.40s\"), dmax=%zu, but the call returned %d", FX.fmt, FX.ref_len, FX.ref, FX.dmax, FX.ret);
+        }
+        return;
+    }
+    /* success path */
+    if (e->sink == SK_BUF) {
+        size_t L = strnlen((char *)FX.dest, FX.dmax);
+        if (L >= FX.dmax) { res_label(r, "foreign-unterminated(C03)"); return; }
+        outlen = L;
+        if (!fits) {
+            if (!e->trunc) {
+                RES_VIOL(r, "C11:%s:success-although-it-does-not-fit:%s", e->name, cls);
+                RES_DETAIL(r, "\"%s\": needs %d+1 characters, dmax=%zu, returned %d", FX.fmt, FX.ref_len, FX.dmax, FX.ret);
+                return;
+            }
+            /* documented truncation: dest must hold the first dmax-1 characters */
+            if (!nfloat && (L != FX.dmax - 1 || memcmp(FX.dest, FX.ref, L) != 0)) {
+                RES_VIOL(r, "C11:%s:wrong-truncated-text:%s", e->name, cls);
+                RES_DETAIL(r, "\"%s\": truncated to \"%.40s\", libc prefix \"%.*s\"", FX.fmt, (char *)FX.dest, (int)(FX.dmax - 1), FX.ref);
+            }
+            return;
+        }
+        memcpy(FX.out, FX.dest, L); FX.out[L] = 0;
+    } else {
+        outlen = FX.out_len;
+        /* a NUL written by %c is part of the byte stream */
+    }
+    if (nfloat == 0) {
+        if (outlen != (size_t)FX.ref_len || memcmp(FX.out, FX.ref, outlen) != 0) {
+            RES_VIOL(r, "C11:%s:text-differs:%s", e->name, cls);
+            RES_DETAIL(r, "\"%s\": got \"%.60s\" (%zu), libc \"%.60s\" (%d)", FX.fmt, FX.out, outlen, FX.ref, FX.ref_len);
+            return;
+        }
+    } else if (nfloat == 1 && ndir == 1) {
+        if (!float_text_ok(c, FX.out, FX.ref)) {
+            RES_VIOL(r, "C11:%s:float-text-differs:%s", e->name, cls);
+            RES_DETAIL(r, "\"%s\": got \"%.60s\", libc \"%.60s\"", FX.fmt, FX.out, FX.ref);
+            return;
+        }
+    } else { res_label(r, "multi-float(not compared)"); return; }
+    if (FX.ret != (int)outlen) {
+        RES_VIOL(r, "C11:%s:wrong-count-returned:%s", e->name, cls);
+        RES_DETAIL(r, "\"%s\": returned %d but %zu characters were stored", FX.fmt, FX.ret, outlen);
+    }
+}
+
+const module_t mod_C11 = {"C11", sizeof(fcase_t), 1, {500000, 5000000}, f_init, gen_c11, exec_c11, fmt_describe,
+                          "formats with 0..4 directives from {d i u x X o c s % lc ls f F e E g G (L)} x flags x width (incl. *) x precision (incl. .*) x length, boundary values, "
+                          "dmax from 1 to needed+5, 8 narrow entry points; reference = libc snprintf on the same arguments (called through libffi); "
+                          "non-trivial = at least one directive other than %% and the text fits; distinct by decoded format/values/dmax relation/entry point"};
